@@ -13,7 +13,8 @@ RULES = {
            "and sleeps between calls and inside the data-source factory (between the loader's critical sections); every answer "
            "compared with the single-threaded answer, all loads of one name compared for equality; built with "
            "-fsanitize=thread, reports counted from the log; the monitor adds no locking on these paths (thread-local logs, "
-           "relaxed atomics). (2) enumerated schedules: programs of 2-3 (thorough: 4) loader threads with overlapping names, "
+           "relaxed atomics). (1a) cold start: fresh processes whose very first cctz calls (utc/fixed/local/default zone, a load) "
+           "are made concurrently by 2-16 threads under TSan (function-local statics, lazily created map). (2) enumerated schedules: programs of 2-3 (thorough: 4) loader threads with overlapping names, "
            "parked at the load hook points (entry, cache miss, before the load lock, inside the factory, before insert) and "
            "stepped one at a time by a stateless DFS over all orders; non-trivial = distinct schedule string / stress round.",
     "C20": "the factory's own event log (enter/exit/read with thread id and a global sequence number, load_time_zone begin/end "
@@ -83,6 +84,19 @@ def run(prop, tier, seed, replay=None):
                 chk.violation(key, text, replay_args=dict(leg="stress-tsan"))
         if other:
             chk.coverage_other_tsan = other
+    # (1a) cold start under TSan: first cctz calls of a fresh process made concurrently
+    if prop == "C13" and (not ra or ra.get("leg") == "cold-tsan"):
+        out_c = os.path.join(chk.workdir, "cold-tsan")
+        os.makedirs(out_c, exist_ok=True)
+        envc = build.san_env("tsan", log_path=os.path.join(out_c, "tsan"))
+        args_c = ["--mode", "cold", "--zones", zones, "--seed", str(seed), "--rounds", "2000" if thorough else "150", "--workers", "4", "--case-timeout", "300"]
+        if ra.get("leg") == "cold-tsan" and "case" in ra:
+            args_c += ["--only-case", str(ra["case"])]
+        res, rc = core.run_monitor(exe_t, args_c, envc, out_c, timeout=7200 if thorough else 1200)
+        legs.append(("cold-tsan", res))
+        reps, other = tsan_reports(out_c)
+        for key, text in reps:
+            chk.violation(key + ":cold-start", text, replay_args=dict(leg="cold-tsan"))
     # (1b) stress under ASan (C20's log checker does not need TSan; different timing)
     if prop == "C20" and (not ra or ra.get("leg") == "stress-asan"):
         out_a = os.path.join(chk.workdir, "stress-asan")
